@@ -56,6 +56,10 @@ def check_list(ctx, l, model, after):
              "DoublyLinkedList/%s/backward-traversal-differs" % after, "backward traversal does not mirror the reference")
 
 
+class _Lazy(Exception):
+    pass
+
+
 def idx_of(model, node):
     for i, x in enumerate(model):
         if x is node:
@@ -83,19 +87,46 @@ def apply_op(ctx, l, model, o):
         model.insert(0, call(lambda: l.prepend(o[1])))
     elif k == "extend":
         n0 = len(model)
-        call(lambda: l.extend(list(o[1])))
+        call(lambda: l.extend(list(o[1]) if len(o[1]) % 2 == 0 else (x for x in o[1])))
         new = list(itertools.islice(l.iter_nodes(), n0 + len(o[1]) + 2))
         ctx.need(len(new) == n0 + len(o[1]) and all(a is b for a, b in zip(new, model)) and [x.data for x in new[n0:]] == list(o[1]),
                  "DoublyLinkedList/extend/wrong", "extend did not append the items in order")
         model[:] = new
     elif k == "pre_extend":
         old = list(model)
-        call(lambda: l.pre_extend(list(o[1])))
+        call(lambda: l.pre_extend(list(o[1]) if len(o[1]) % 2 == 0 else (x for x in o[1])))
         new = list(itertools.islice(l.iter_nodes(), len(old) + len(o[1]) + 2))
         m = len(o[1])
         ctx.need(len(new) == len(old) + m and [x.data for x in new[:m]] == list(o[1])[::-1] and all(a is b for a, b in zip(new[m:], old)),
                  "DoublyLinkedList/pre_extend/wrong", "pre_extend did not prepend the items one by one")
         model[:] = new
+    elif k in ("extend_raise", "pre_extend_raise"):
+        # the iterable is lazy and fails after j items: the exception comes out and the list stays a consistent list that holds
+        # the old nodes in order plus the nodes of some prefix of the items already delivered (none is fine as well)
+        items, j = list(o[1]), o[2] % (len(o[1]) + 1)
+        old = list(model)
+
+        def lazy():
+            for x in items[:j]:
+                yield x
+            raise _Lazy()
+        try:
+            (l.extend if k == "extend_raise" else l.pre_extend)(lazy())
+            ctx.fail("DoublyLinkedList/%s/exception-swallowed" % k, "the exception raised by the iterable did not come out")
+        except _Lazy:
+            pass
+        except Exception as e:  # noqa
+            ctx.fail("DoublyLinkedList/%s/exception-%s" % (k, type(e).__name__), "%s raised %s instead of the iterable's exception" % (k, type(e).__name__))
+        new = list(itertools.islice(l.iter_nodes(), len(old) + len(items) + 2))
+        extra = len(new) - len(old)
+        if k == "extend_raise":
+            ok = 0 <= extra <= j and all(a is b for a, b in zip(new, old)) and [x.data for x in new[len(old):]] == items[:extra]
+        else:
+            ok = 0 <= extra <= j and all(a is b for a, b in zip(new[extra:], old)) and [x.data for x in new[:extra]] == items[:extra][::-1]
+        ctx.need(ok, "DoublyLinkedList/%s/wrong-content-after-failed-iterable" % k,
+                 lambda: "old %d nodes, after the failed %s (%d items delivered) forward traversal has %d nodes" % (len(old), k, j, len(new)))
+        model[:] = new
+        ctx.label("extend-from-failing-iterable")
     elif k in NODE_OPS:
         if not model:
             return False
@@ -201,6 +232,7 @@ IDX = st.integers(0, 20)
 OP = st.one_of(
     st.tuples(st.sampled_from(["append", "prepend"]), PAY),
     st.tuples(st.sampled_from(["extend", "pre_extend"]), st.lists(PAY, max_size=3)),
+    st.tuples(st.sampled_from(["extend_raise", "pre_extend_raise"]), st.lists(PAY, max_size=3), st.integers(0, 3)),
     st.tuples(st.sampled_from(NODE_OPS), IDX),
     st.tuples(st.sampled_from(["move_to_front", "move_to_back"]), IDX),
     st.tuples(st.just("move_after"), IDX, IDX),
@@ -216,7 +248,7 @@ def strategies(tier):
                                   "ops": st.lists(OP, max_size=40)})
     long_ = st.fixed_dictionaries({"kind": st.just("long"), "n": st.sampled_from([400, 700, 1200, 3000]),
                                    "payload": st.sampled_from([0, "x", None]),
-                                   "ops": st.lists(OP.filter(lambda o: o[0] not in ("extend", "pre_extend")), min_size=1, max_size=5)})
+                                   "ops": st.lists(OP.filter(lambda o: o[0] not in ("extend", "pre_extend", "extend_raise", "pre_extend_raise")), min_size=1, max_size=5)})
     return [("histories", hist, 3000000 if big else 30000), ("long-runs", long_, 3000 if big else 84)]
 
 
